@@ -96,7 +96,7 @@ func init() {
 		Assumptions: []string{"storage errors are injected at the boltz write primitives (verif hook), not inside bbolt's commit", "quiescence of asynchronous callbacks is awaited by goroutine-count baseline"},
 		Plan: func(tier core.Tier, seed int64) int {
 			if tier == core.Thorough {
-				return 1600
+				return 30000
 			}
 			return 64
 		},
